@@ -38,6 +38,14 @@ func genPyramid(repo string) {
 	if fd := lm.funcDecl("Data", "downresOctant"); fd != nil {
 		oc = squash(lm.src(fd))
 	}
+	sb := ""
+	if fd := loadPkg(repo, "datatype/common/labels").funcDecl("Block", "setBlank"); fd != nil {
+		sb = squash(loadPkg(repo, "datatype/common/labels").src(fd))
+	}
+	emit("downresSolidNeedsAllOctants", "Block.Downres replaces the receiving block by a solid block only when all eight octants are given, solid and of one label (a nil octant leaves its portion as stored)",
+		strings.Contains(sb, "ifoctants[0]==nil||len(octants[0].Labels)!=1{returnfalse}") &&
+			strings.Contains(sb, "ifoctants[i]==nil||len(octants[i].Labels)!=1||lbl!=octants[i].Labels[0]{returnfalse}") &&
+			strings.Count(sb, "MakeSolidBlock") == 1, sb != "")
 	emit("downresKeepsUntouchedOctants", "when fewer than eight octants changed the stored lower-resolution block is loaded and only the changed octants are recomputed",
 		strings.Contains(oc, "ifnumBlocks<8{") && strings.Contains(oc, "loresBlock,err=d.getSupervoxelBlock(v,chunkPt,hiresScale+1)") && strings.Contains(oc, "loresBlock.Downres(msg.octant)"), oc != "")
 }
